@@ -1183,7 +1183,7 @@ func TestVerifC11Meta(t *testing.T) {
 	r := ev.Start(t, "C11")
 	defer r.Finish()
 	vm11Setup()
-	depth := ev.Pick(r, 3, 5)
+	depth := ev.Pick(r, 3, 6)
 	if os.Getenv("VM11_ONLY") != "" {
 		depth = 1
 	}
